@@ -153,9 +153,21 @@ type c10case struct {
 	cellNumeric, d1904 bool
 	value, code        string
 	o                  *c10o
+	// glue cases: the result comes from the public API instead of the hook
+	api    func() string
+	prefix string
+	suffix string
+	rep    string
+}
+
+func c10mk(cellNumeric, d1904 bool, value, code string, o *c10o) c10case {
+	return c10case{cellNumeric: cellNumeric, d1904: d1904, value: value, code: code, o: o}
 }
 
 func (c c10case) replay() string {
+	if c.rep != "" {
+		return c.rep
+	}
 	if c.o != nil {
 		return fmt.Sprintf("caseo %s %s %s %s %d %s %s %s", b01(c.cellNumeric), b01(c.d1904), hx(c.value), hx(c.code), c.o.culture, hx(c.o.short), hx(c.o.longDate), hx(c.o.longTime))
 	}
@@ -638,7 +650,12 @@ func c10fmt(r *Run, c c10case) (string, bool) {
 	if c.cellNumeric {
 		ct = xl.CellTypeNumber
 	}
-	res := c10guard(func() string { return xl.VerifC10Format(c.value, c.code, c.d1904, ct, c.o.options()) })
+	res := c10guard(func() string {
+		if c.api != nil {
+			return c.api()
+		}
+		return xl.VerifC10Format(c.value, c.code, c.d1904, ct, c.o.options())
+	})
 	cls := c10class(c, b.isNum)
 	r.Stat("class:" + cls)
 	r.Stat(fmt.Sprintf("sections:%d", len(b.secs)))
@@ -670,7 +687,7 @@ func c10fmt(r *Run, c c10case) (string, bool) {
 		if cf.Selected && numeric && xok {
 			xs = "X=" + hx(c10exactFixed(x, cf.Percent, cf.FracLen))
 		}
-		line = r.Op(b.op, out+" "+c10confStr(cf, numeric)+" "+xs+" T=1 A=1")
+		line = r.Op(c.prefix+b.op, out+" "+c10confStr(cf, numeric)+" "+xs+" T=1 A=1"+c.suffix)
 		c10lastLine = line
 		r.Stat("transcript:fmt")
 	} else {
@@ -878,7 +895,7 @@ func atoi(s string) int { n, _ := strconv.Atoi(s); return n }
 // c10dateCase renders a serial under a date template and checks the fields against the instant
 // serial days after 1899-12-30 (1900 system, serial >= 61) or 1904-01-01 (1904 system).
 func c10dateCase(r *Run, value string, d1904 bool, tpl c10dt) {
-	c := c10case{true, d1904, value, tpl.code, nil}
+	c := c10mk(true, d1904, value, tpl.code, nil)
 	out, ok := c10fmt(r, c)
 	if !ok {
 		return
@@ -1013,7 +1030,7 @@ func c10optDate(r *Run, value string, d1904 bool, ti int, kind string, tagi int)
 	r.Stat("optdate:" + kind)
 	// (a) the unexported format with the same options: transcript line + model
 	if id == 0 {
-		out, ok := c10fmt(r, c10case{true, d1904, value, code, o})
+		out, ok := c10fmt(r, c10mk(true, d1904, value, code, o))
 		if ok {
 			c10checkDate(r, out, value, d1904, tpl, rep, ":options-"+kind+":format", c10lastLine)
 		}
@@ -1384,26 +1401,26 @@ func runC10(r *Run, rng *Rng, replay string) {
 	}
 	// 0. witnesses of known findings and regression anchors (deterministic, every run)
 	for _, c := range []c10case{
-		{true, false, "0", `0.00;-0.00;"zero"`, nil},
-		{true, false, "0", `#,##0.00;(#,##0.00);"-"`, nil},
-		{true, false, "5", `[>=100]0.0;[<100]0.000`, nil},
-		{true, false, "5", `[foo]0.0`, nil},
-		{true, false, "1234567890123.4568", "0.000", nil},
-		{true, false, "12345678901234.567", "0.00", nil},
-		{true, false, "1e16", "0.00%%", nil},
-		{true, false, "5", "[<0]0.0_)", nil},
-		{true, false, "12.34", "#,##0%", nil},
-		{true, false, "1234567", "#,##0%", nil},
-		{true, false, "1234567.891", "#,##0.00", nil},
-		{true, false, "-1234.5", "#,##0.00;(#,##0.00)", nil},
-		{true, false, "abc", `0.00;;;"t:"@`, nil},
-		{true, false, "1.005", "0.00", nil},
-		{true, false, "2.5", "0", nil},
-		{true, false, "0.5", "0%", nil},
-		{true, false, "123456", "0.00E+00", nil},
-		{true, false, "123456789012345", "General", nil},
-		{true, true, "43831.75", "yyyy-mm-dd hh:mm:ss", nil},
-		{true, false, "0.4999999", "AM/PM h:mm:ss", nil},
+		c10mk(true, false, "0", `0.00;-0.00;"zero"`, nil),
+		c10mk(true, false, "0", `#,##0.00;(#,##0.00);"-"`, nil),
+		c10mk(true, false, "5", `[>=100]0.0;[<100]0.000`, nil),
+		c10mk(true, false, "5", `[foo]0.0`, nil),
+		c10mk(true, false, "1234567890123.4568", "0.000", nil),
+		c10mk(true, false, "12345678901234.567", "0.00", nil),
+		c10mk(true, false, "1e16", "0.00%%", nil),
+		c10mk(true, false, "5", "[<0]0.0_)", nil),
+		c10mk(true, false, "12.34", "#,##0%", nil),
+		c10mk(true, false, "1234567", "#,##0%", nil),
+		c10mk(true, false, "1234567.891", "#,##0.00", nil),
+		c10mk(true, false, "-1234.5", "#,##0.00;(#,##0.00)", nil),
+		c10mk(true, false, "abc", `0.00;;;"t:"@`, nil),
+		c10mk(true, false, "1.005", "0.00", nil),
+		c10mk(true, false, "2.5", "0", nil),
+		c10mk(true, false, "0.5", "0%", nil),
+		c10mk(true, false, "123456", "0.00E+00", nil),
+		c10mk(true, false, "123456789012345", "General", nil),
+		c10mk(true, true, "43831.75", "yyyy-mm-dd hh:mm:ss", nil),
+		c10mk(true, false, "0.4999999", "AM/PM h:mm:ss", nil),
 	} {
 		c10fmt(r, c)
 	}
@@ -1430,7 +1447,7 @@ func runC10(r *Run, rng *Rng, replay string) {
 		"#,##0.00;[Red](#,##0.00)", `0.0;-0.0;"zero";"t:"@`, "yyyy-mm-dd hh:mm:ss", "[h]:mm:ss", "h:mm AM/PM", "#,##0%", "0.0##", "#.#", "00000", "[$-409]mmmm d, yyyy"}
 	for _, v := range c10values {
 		for _, code := range grid {
-			c10fmt(r, c10case{true, false, v, code, nil})
+			c10fmt(r, c10mk(true, false, v, code, nil))
 		}
 	}
 	// 3. random structured cases
@@ -1480,7 +1497,7 @@ func runC10(r *Run, rng *Rng, replay string) {
 		if rng.Chance(15) {
 			code = "0." + strings.Repeat("0", rng.Range(1, 20)) + "E+00"
 		}
-		c10fmt(r, c10case{true, false, c10randValue(rng), code, nil})
+		c10fmt(r, c10mk(true, false, c10randValue(rng), code, nil))
 	}
 	// 5. sign twins
 	for i := 0; i < 150*scale; i++ {
@@ -1541,7 +1558,25 @@ func runC10(r *Run, rng *Rng, replay string) {
 		if rng.Chance(25) {
 			code = c10dateCode(rng)
 		}
-		c10fmt(r, c10case{true, rng.Chance(40), rng.Pick([]string{"43831.75", "0.5", "1", "45000.25", "-1", "abc", "61.5", "1462"}), code, o})
+		c10fmt(r, c10mk(true, rng.Chance(40), rng.Pick([]string{"43831.75", "0.5", "1", "45000.25", "-1", "abc", "61.5", "1462"}), code, o))
+	}
+	// 6c. glue: id -> code for every id 0..90 and a few beyond, every culture, with and without patterns
+	for _, pat := range [][2]string{{"", ""}, {"yyyy/m/d", "h:mm:ss AM/PM"}, {"d.m.yy", ""}, {"", "hh:mm"}} {
+		for cu := 0; cu <= 6; cu++ {
+			for id := 0; id <= 90; id++ {
+				c10bcode(r, cu, pat[0], pat[1], id)
+			}
+			for _, id := range []int{163, 164, 200, 634, 635, 1000} {
+				c10bcode(r, cu, pat[0], pat[1], id)
+			}
+		}
+	}
+	for i := 0; i < 250*scale; i++ {
+		id := rng.Pick2([]int{0, 1, 2, 3, 4, 9, 10, 11, 14, 14, 15, 16, 17, 18, 19, 20, 21, 22, 22, 37, 38, 39, 40, 41, 43, 45, 46, 47, 48, 49, rng.Range(27, 36), rng.Range(50, 62), rng.Range(67, 81), rng.Range(5, 90)})
+		o := &c10o{culture: rng.Pick2([]int{0, 1, 1, 4, 4}), short: rng.Pick([]string{"", "", "yyyy/m/d", "d.m.yy"}), longTime: rng.Pick([]string{"", "", "h:mm:ss AM/PM"}),
+			longDate: rng.Pick([]string{"", "", "dddd, mmmm dd, yyyy"})}
+		v := rng.Pick([]string{"43831.75", "0.5", "1234.5678", "-1234.5678", "0", "abc", "45000.25", "1462", "61.5", "0.256", "-0.5"})
+		c10glue(r, rng.Chance(30), !rng.Chance(8), id, o, v)
 	}
 	// 7. locales: every language id / code through AM/PM, month and weekday tokens
 	ids, codes := xl.VerifC10LanguageCodes()
@@ -1589,7 +1624,7 @@ func c10replay(r *Run, path string) {
 		}
 		switch {
 		case w[0] == "case" && len(w) == 5:
-			c10fmt(r, c10case{w[1] == "1", w[2] == "1", unhx(w[3]), unhx(w[4]), nil})
+			c10fmt(r, c10mk(w[1] == "1", w[2] == "1", unhx(w[3]), unhx(w[4]), nil))
 			// date templates carry their own oracle
 			for _, t := range c10dtCodes {
 				if t.code == unhx(w[4]) {
@@ -1597,9 +1632,13 @@ func c10replay(r *Run, path string) {
 				}
 			}
 		case w[0] == "caseo" && len(w) == 9:
-			c10fmt(r, c10case{w[1] == "1", w[2] == "1", unhx(w[3]), unhx(w[4]), &c10o{atoi(w[5]), unhx(w[6]), unhx(w[7]), unhx(w[8])}})
+			c10fmt(r, c10mk(w[1] == "1", w[2] == "1", unhx(w[3]), unhx(w[4]), &c10o{atoi(w[5]), unhx(w[6]), unhx(w[7]), unhx(w[8])}))
 		case w[0] == "optdate" && len(w) == 6:
 			c10optDate(r, unhx(w[2]), w[1] == "1", atoi(w[3]), w[4], atoi(w[5]))
+		case w[0] == "glue" && len(w) == 9:
+			c10glue(r, w[1] == "1", w[2] == "1", atoi(w[3]), &c10o{atoi(w[4]), unhx(w[5]), unhx(w[6]), unhx(w[7])}, unhx(w[8]))
+		case w[0] == "bcode" && len(w) == 5:
+			c10bcode(r, atoi(w[1]), unhx(w[2]), unhx(w[3]), atoi(w[4]))
 		case w[0] == "comma" && len(w) == 2:
 			c10comma(r, unhx(w[1]))
 		case w[0] == "twin" && len(w) == 4:
@@ -1759,7 +1798,7 @@ func c10histories(r *Run, hs []c10hist) {
 		r.Stat("history")
 		// (a) through the hook, one call after the other in this process (each call is also a transcript line)
 		for j, v := range h.vals {
-			got, ok := c10fmt(r, c10case{true, false, v, h.code, nil})
+			got, ok := c10fmt(r, c10mk(true, false, v, h.code, nil))
 			line := c10lastLine
 			want := solo[j][i]
 			if !ok || want == "" {
@@ -1824,4 +1863,104 @@ func c10showSolo(s string) string {
 		return fmt.Sprintf("%q", unhx(w[1]))
 	}
 	return s
+}
+
+// ---------------------------------------------------------------------------
+// glue: cell style -> number format id -> code -> format
+
+func c10bcode(r *Run, cu int, short, lt string, id int) {
+	var code string
+	var ok bool
+	res := c10guard(func() string {
+		f := xl.NewFile(xl.Options{CultureInfo: xl.CultureName(cu), ShortDatePattern: short, LongTimePattern: lt})
+		defer f.Close()
+		code, ok = f.VerifC10BuiltInCode(id)
+		return ""
+	})
+	op := fmt.Sprintf("bcode %d %s %s %d", cu, hx(short), hx(lt), id)
+	out := "none"
+	if res.panic != "" || res.hang {
+		out = "PANIC"
+		r.Fail("glue:panic", fmt.Sprintf("getBuiltInNumFmtCode(%d) culture %d panics: %s", id, cu, res.panic), 0, op)
+	} else if ok {
+		out = "ok " + hx(code)
+	}
+	r.Op(op, out)
+	r.Case(op, ok)
+	r.Stat("transcript:bcode")
+}
+
+// c10glue: NewStyle{NumFmt: id} (or no style) on a File with options; the text GetCellValue returns
+// must be format(code) for the code formattedValue resolves to, raw when there is none.
+func c10glue(r *Run, d1904, styled bool, id int, o *c10o, value string) {
+	rep := fmt.Sprintf("glue %s %s %d %d %s %s %s %s", b01(d1904), b01(styled), id, o.culture, hx(o.short), hx(o.longDate), hx(o.longTime), hx(value))
+	if isNum, prec, dec := xl.VerifC10IsNumeric(value); isNum && (prec > 15 || strconv.FormatFloat(dec, 'f', -1, 64) != value) {
+		return
+	}
+	var code string
+	var has bool
+	pre := c10guard(func() string {
+		f := xl.NewFile(*o.options())
+		defer f.Close()
+		code, has = f.VerifC10BuiltInCode(id)
+		if styled {
+			// NewStyle de-duplicates: an id that adds nothing gives the default style 0 (the raw value is read)
+			if st, err := f.NewStyle(&xl.Style{NumFmt: id}); err != nil || st == 0 {
+				styled = false
+			}
+		}
+		return ""
+	})
+	if pre.panic != "" || pre.hang {
+		return
+	}
+	if has && o.short != "" {
+		switch id {
+		case 14:
+			code = o.short
+		case 22:
+			code = o.short + " hh:mm"
+		}
+	}
+	if !styled {
+		has = false
+	}
+	codeField := "none"
+	if has {
+		codeField = hx(code)
+	} else {
+		code = ""
+	}
+	api := func() string {
+		f := xl.NewFile(*o.options())
+		defer f.Close()
+		if d1904 {
+			t := true
+			if err := f.SetWorkbookProps(&xl.WorkbookPropsOptions{Date1904: &t}); err != nil {
+				panic(err)
+			}
+		}
+		if err := f.SetCellDefault("Sheet1", "A1", value); err != nil {
+			panic(err)
+		}
+		if styled {
+			st, err := f.NewStyle(&xl.Style{NumFmt: id})
+			if err != nil {
+				panic(err)
+			}
+			if err := f.SetCellStyle("Sheet1", "A1", "A1", st); err != nil {
+				panic(err)
+			}
+		}
+		got, err := f.GetCellValue("Sheet1", "A1")
+		if err != nil {
+			panic(err)
+		}
+		return got
+	}
+	c := c10case{cellNumeric: true, d1904: d1904, value: value, code: code, o: o, api: api,
+		prefix: fmt.Sprintf("glue %s %d %d %s %s %s ", b01(styled), id, o.culture, hx(o.short), hx(o.longTime), codeField),
+		suffix: " R=1", rep: rep}
+	r.Stat("glue")
+	c10fmt(r, c)
 }
